@@ -30,7 +30,7 @@ Record OC (hs : list hcall) (c : cst) : Prop := {
 
 Lemma oc_phk hs c c' : OC hs c -> winv c' -> phk c c' -> OC hs c'.
 Proof.
-  intros [W L O] W' [L' K]. constructor; [exact W'|congruence|].
+  intros [W L O] W' (L' & K & _). constructor; [exact W'|congruence|].
   intros j h E H. destruct (O j h E H) as (p & Ep & Fp). exists p. split; [|exact Fp].
   rewrite K; [exact Ep|]. rewrite Ep. intros [= X]. exact (fin_not_acq p Fp X).
 Qed.
